@@ -46,19 +46,19 @@ PROPERTIES = {
            _fz('fz_encoded_stream', 'fz_encoded_stream.cpp', [], 'bytes as an encoded stream for DetectEncoding (string and stream) and CEncodedStreamReader<char|char16_t|char32_t, 32|256> over istringstream / short-read streambuf; in-target oracle: end reached within size+64 ReadChunk calls, Skip output well-formed; non-trivial = several chunks, a BOM or a decoding error', qruns=400000)]),
  'C03': dict(
     level='exploration', exhaustive_claim=False,
-    rule='model-based: generated object documents (1..10 keys; ints, strings, bools, doubles, int arrays, nested objects; MsgPack also integer / float / timestamp keys) in an envelope [padding 0..600, object, sentinel]; generated request scripts (any order, repeats, absent keys with int / string / optional / atomic / unique_ptr targets, nested object with sub-script, array read for j <= n elements, VisitKeys, early stop) executed through the public Serialize(scope, key, value) API; 4 archives x memory / stringstream / short-read stream; oracle = the document as a map + the sentinel behind the object',
+    rule='model-based: generated object documents (1..10 keys; ints, strings, bools, doubles, int arrays, nested objects; MsgPack also integer / float / timestamp keys) in an envelope [padding 0..600, object, sentinel]; generated request scripts (any order, repeats, absent keys with int / string / optional / atomic / unique_ptr targets, nested object with sub-script, array read for j <= n elements, VisitKeys, early stop) executed through the public Serialize(scope, key, value) API; 4 archives x memory / stringstream / short-read stream; MsgPack keys 2^N - a next to absent requests intN_t(-a) (same bit pattern, N = 8..64); oracle = the document as a map + the sentinel behind the object',
     assumptions=TRUSTED + ['keys are unique, NUL-free; XML keys are Names and XML strings non-empty (KF-13)', 'nil / empty CSV cells are "not loaded" by design'],
     units=[U('c03_scripts', 'c03_field_order.cpp', flavour='asan', libs=['-lpugixml'], quick=dict(cases=50000, shards=8, min_eval=50000), thorough=dict(cases=2400000, shards=16, min_eval=1000000)),
            U('c03_scripts_chunk32', 'c03_field_order.cpp', flavour='asan32', libs=['-lpugixml'], args=['--skip-prefix', 'kf'], quick=dict(cases=10000, shards=4, min_eval=20000), thorough=dict(cases=300000, shards=8, min_eval=500000))]),
  'C05': dict(
     level='exploration', exhaustive_claim=False,
-    rule='arbitrary trees (depth <= 3: arrays of scalars / of objects, objects holding arrays, byte containers) with 1..6 values at any depth replaced by certainly mismatching values (other scalar kind, string, array, object, out-of-range number; for text archives: unparsable text), loaded with both Skip policies into a sentinel-filled target of the clean shape + envelope sentinel; typed objects with Required() on every field; 4 archives, memory and streams; oracle = model_skip (clean document)',
+    rule='arbitrary trees (depth <= 3: arrays of scalars / of objects, objects holding arrays, byte containers) with 1..6 values at any depth replaced by certainly mismatching values (other scalar kind, string, array, object, out-of-range number; for text archives: unparsable text), loaded with both Skip policies into a sentinel-filled target of the clean shape + envelope sentinel; sequences of narrow numeric types (float / int8 / uint16 / int32 / uint32) whose offences are numbers the element type cannot hold; typed objects with Required() on every field; 4 archives, memory and streams; oracle = model_skip (clean document)',
     assumptions=TRUSTED + ['nil is "not loaded" under either policy (not used as an offence)', 'bool -> integer and (JSON) integer -> float are legal conversions, not offences', 'an int array for a byte container is legal (falls back to a regular array)'],
     units=[U('c05_skip', 'c05_skip.cpp', flavour='asan', libs=['-lpugixml'], quick=dict(cases=40000, shards=8, min_eval=50000), thorough=dict(cases=600000, shards=16, min_eval=1000000)),
            U('c05_skip_chunk32', 'c05_skip.cpp', flavour='asan32', libs=['-lpugixml'], args=['--skip-prefix', 'kf'], quick=dict(cases=10000, shards=4, min_eval=20000), thorough=dict(cases=300000, shards=8, min_eval=500000))]),
  'C17': dict(
     level='exploration', exhaustive_claim=False,
-    rule='object with 10 fields (int32, double, string, vector, e-mail, phone, uint8, nested object, array of objects, map of objects), each with 0..3 runtime-chosen validators out of Required / Range / MinSize / MaxSize / Email / PhoneNumber / custom functors + lambda, default or custom messages; every field present (at, just inside, just outside each bound), absent, null or mismatched-and-skipped; maxValidationErrors in {0,1,2,3,4,8}; 4 archives, memory and streams; oracle = reference model of the documented validator rules predicting failing paths and messages in load order',
+    rule='object with 10 fields (int32, double, string, vector, e-mail, phone, uint8, nested object, array of objects, map of objects), each with 0..3 runtime-chosen validators out of Required / Range / MinSize / MaxSize / Email / PhoneNumber / custom functors + lambda, default or custom messages; every field present (at, just inside, just outside each bound), absent, null or mismatched-and-skipped; maxValidationErrors in {0,1,2,3,4,8}; validated objects also inside std::tuple / optional / array / deque members; 4 archives, memory and streams; oracle = reference model of the documented validator rules predicting failing paths and messages in load order',
     assumptions=TRUSTED + ['array / row positions inside paths are wildcards (the property exempts them)', 'default PhoneNumber messages are only required to start with "Invalid phone number"; e-mail labels starting with a digit and phones with repeated "+" are not generated (documentation is silent)', 'mismatches are generated under the Skip policies (C05 covers the policies themselves)'],
     units=[U('c17_validation', 'c17_validation.cpp', flavour='asan', libs=['-lpugixml'], quick=dict(cases=50000, shards=8, min_eval=50000), thorough=dict(cases=1800000, shards=16, min_eval=1000000))]),
  'C08': dict(
@@ -113,8 +113,8 @@ PROPERTIES = {
     units=_c01_units('c01', 'roundtrip*', 40000, 1500000) + [U('c01_kf', 'c01_kf.cpp', flavour='asan', libs=['-lpugixml'], quick=dict(cases=300, shards=1, min_eval=100), thorough=dict(cases=3000, shards=1, min_eval=100))]),
  'C18': dict(
     level='exploration', exhaustive_claim=False,
-    rule='the same typed models: a document saved from value A is loaded into a target already holding an independent random value B of the same type (longer / shorter / empty / other keys / null / engaged), result must equal A; 4 archives, root and member positions, memory and streams; CSV rows into a populated vector',
-    assumptions=TRUSTED + ['documents are complete for the element schema (an absent member legitimately keeps its old value, C03)', 'recorded findings KF-12, KF-13, KF-44 excluded and witnessed'],
+    rule='the same typed models: a document saved from value A is loaded into a target already holding an independent random value B of the same type (longer / shorter / empty / other keys / null / engaged), result must equal A; 4 archives, root and member positions, memory and streams; CSV rows into a populated vector; arrays with null elements into populated vector<bool> / vector<int> / list / deque against the fresh load; media include files (SaveObjectToFile over longer stale content, LoadObjectFromFile)',
+    assumptions=TRUSTED + ['documents are complete for the element schema (an absent member legitimately keeps its old value, C03)', 'recorded findings KF-12, KF-13, KF-44 and KF-66 (null element keeps the old element of a generic sequence) excluded by construction and witnessed'],
     units=_c01_units('c18', 'reload*', 30000, 1200000) + [U('c18_maps', 'c18_map_modes.cpp', flavour='asan', libs=['-lpugixml'], quick=dict(cases=6000, shards=2, min_eval=1000), thorough=dict(cases=600000, shards=4, min_eval=10000)),
            U('c01_kf', 'c01_kf.cpp', flavour='asan', libs=['-lpugixml'], args=['--prop', 'kf12*,kf13*,kf44*'], quick=dict(cases=200, shards=1, min_eval=50), thorough=dict(cases=2000, shards=1, min_eval=50))]),
 
